@@ -428,6 +428,31 @@ def run(tier, seed):
                 rep.extra.setdefault("trace_divergence", []).append({"tid": t, "clause": c})
             else:
                 rep.fail(c, "trace:" + rcd["src"], {"kind": rcd["kind"], "ops": [e["op"] for e in rcd["events"]][:60]})
+    # 6. value-level sessions against the concrete object model (spec/SignalObj.tla): every read must return what the
+    #    L1 kernels compute from the record the model holds -- an oracle that does not run the library a second time
+    from harness import sessions
+    rngv = np.random.default_rng(seed + 44)
+    vrecs = []
+    for i in range(24 if tier == "quick" else 200):
+        kind = ["AccSignal", "Signal", "AccSignal"][i % 3]
+        try:
+            ev = sessions.session(kind, rngv, 30 if tier == "quick" else 60)
+        except Exception as ex:
+            rep.fail("Raises", "value-session", {"kind": kind, "error": "%s: %s" % (type(ex).__name__, ex)})
+            continue
+        vrecs.append({"tid": len(vrecs) + 1, "cls": kind, "events": ev})
+    trv = os.path.join(wd, "value_sessions.ndjson")
+    write_ndjson(trv, vrecs)
+    r3 = tlc.run("Trace_SignalObj", cfg="Trace_SignalObj", env={"TRACE_FILE": trv}, job="C04/trace_values")
+    rep.add_tlc("Trace_SignalObj", r3, "value-level sessions: reads recomputed from the model's record by the L1 kernels")
+    for vr in vrecs:
+        if vr["tid"] not in r3.verdicts:
+            raise tlc.MachineryError("no verdict for value session %d" % vr["tid"])
+        rep.traces += 1
+        for c in r3.verdicts[vr["tid"]][0]:
+            ops = [(e["op"] if e["op"] != "read" else "read:" + e["what"]) for e in vr["events"]]
+            rep.fail(c, "value-session", {"kind": vr["cls"], "ops": ops[:70]})
+    rep.extra["value_sessions"] = {"sessions": len(vrecs), "events": sum(len(v["events"]) for v in vrecs)}
     rep.sample({"session": [e["op"] for e in recs[0]["events"]][:12], "pi_after_each": [e["pi"] for e in recs[0]["events"]][:12]})
     rep.sample({"edge": "state fa=1,smooth=1,dv=1,rs=1 --running_average--> all memo bits off; real AccSignal snapshot in that state, every read compared with a fresh object"})
     rep.exhaustive = True
